@@ -19,7 +19,7 @@ MUTANTS = [
     M("cli-args-outside-try", "sharepoint2text/cli.py", "    try:\n        if args.binary and not (args.json or args.json_unit):", "    file_path0 = Path(args.path)\n    try:\n        if args.binary and not (args.json or args.json_unit):", "C01-CLI"),
     M("jpeg-scanner-continue-without-advance", X + "util/image_utils.py", "offset += 2 + segment_len", "offset += segment_len", "C01-LOOP"),
     M("xls-filepass-zero-advance", X + "util/encryption.py", "        offset += 4 + record_len", "        offset += record_len", "C01-LOOP"),
-    M("rtf-hex-continue", X + "ms_legacy/rtf_extractor.py", "                        except ValueError:\n                            pass\n                        i += 4", "                        except ValueError:\n                            continue\n                        i += 4", "C01-LOOP"),
+    M("rtf-hex-continue", X + "ms_legacy/rtf_extractor.py", "                    elif i + 3 < n:\n                        i += 4\n                    else:\n                        i += 2\n\n                elif next_char.isalpha():", "                    elif i + 3 < n:\n                        continue\n                    else:\n                        i += 2\n\n                elif next_char.isalpha():", "C01-LOOP"),
     M("heading-stack-no-pop", X + "data_types.py", "                    while heading_stack and heading_stack[-1][0] >= heading_level:\n                        heading_stack.pop()", "                    while heading_stack and heading_stack[-1][0] >= heading_level:\n                        heading_level += 0", "C01-LOOP"),
     M("recursion-on-self-docx", X + "ms_modern/docx_extractor.py", "            for child in choice:\n                _process_text_element(child, parts, include_formulas)", "            for child in choice:\n                _process_text_element(elem, parts, include_formulas)", "C01-REC"),
     M("regex-nested-repeat", EPB, '_RE_MULTI_SPACE = re.compile(r"[ \\t]+")', '_RE_MULTI_SPACE = re.compile(r"(?:[ \\t]+)+")', "C01-REGEX"),
